@@ -17,6 +17,18 @@ def Program.WellScoped (prog : Program) : Prop :=
   ∀ r ∈ prog.rules, ∀ g : Sig, g.confined = true →
     canS g r.body = false ∧ ∀ p, r.pattern = some p → canE g p = false
 
+theorem wellScoped_of_B (prog : Program) (h : prog.wellScopedB = true) : prog.WellScoped := by
+  simp only [Program.wellScopedB, Bool.and_eq_true, List.all_eq_true, Bool.not_eq_true',
+    confinedSigs] at h
+  obtain ⟨hf, hr⟩ := h
+  refine ⟨fun f hfm => hf f hfm, fun r hrm g hg => ?_⟩
+  have hmem : g ∈ [Sig.brk, Sig.cont, Sig.ret] := by cases g <;> simp_all [Sig.confined]
+  have hg' := hr r hrm g hmem
+  refine ⟨hg'.1, fun p hp => ?_⟩
+  have := hg'.2
+  rw [hp] at this
+  simpa using this
+
 theorem NoSig.catchSig_same {α : Type} (g : Sig) (d : α) (m : EM α) : NoSig g (catchSig g d m) := by
   intro s s' h
   unfold catchSig at h
